@@ -280,3 +280,69 @@ var deepFamilies = []deepFamily{
 	{"deep-default-values", func(d int) string { return "query($v:T=" + strings.Repeat("[", d) + strings.Repeat("]", d) + "){x}" }},
 	{"deep-directive-argument", func(d int) string { return "{x @d(a:" + strings.Repeat("[", d) + strings.Repeat("]", d) + ")}" }},
 }
+
+// ---- mixed families: N siblings of one production kind, then nesting of one bracket kind ----------------
+
+// sibKind builds, from N siblings and a nested selection `nest`, a whole document in which the
+// siblings are parsed before the nested part.
+type sibKind struct {
+	name string
+	doc  func(n int, nest string) string
+}
+
+var sibKinds = []sibKind{
+	{"named-spreads", func(n int, nest string) string {
+		return "{" + strings.Repeat(" ...F", n) + " " + nest + " } fragment F on Query { x }"
+	}},
+	{"inline-fragments", func(n int, nest string) string { return "{" + strings.Repeat(" ... { x } ... on Query { x }", n/2) + " " + nest + " }" }},
+	{"fields", func(n int, nest string) string { return "{" + strings.Repeat(" x", n) + " " + nest + " }" }},
+	{"fields-with-subselection", func(n int, nest string) string { return "{" + strings.Repeat(" o { x }", n) + " " + nest + " }" }},
+	{"arguments", func(n int, nest string) string {
+		return "{ f(" + rep(n, func(i int) string { return fmt.Sprintf("a%d: 1 ", i) }) + ") " + nest + " }"
+	}},
+	{"list-items", func(n int, nest string) string { return "{ f(l: [" + strings.Repeat("1 $v [] {} ", n/4+1) + "]) " + nest + " }" }},
+	{"object-fields", func(n int, nest string) string {
+		return "{ f(in: {" + rep(n, func(i int) string { return fmt.Sprintf("k%d: 1 ", i) }) + "}) " + nest + " }"
+	}},
+	{"directives", func(n int, nest string) string { return "{ x" + strings.Repeat(" @d(a: 1)", n) + " " + nest + " }" }},
+	{"variable-definitions", func(n int, nest string) string {
+		return "query(" + rep(n, func(i int) string { return fmt.Sprintf("$v%d: [Int!] = [1] ", i) }) + ") { " + nest + " }"
+	}},
+	{"operations-and-fragments", func(n int, nest string) string {
+		return rep(n/2, func(i int) string { return fmt.Sprintf("query Q%d { x ...F%d } fragment F%d on T { x } ", i, i, i) }) + "{ " + nest + " }"
+	}},
+}
+
+// nestKind: one selection whose text is nested d levels deep.
+type nestKind struct {
+	name string
+	sel  func(d int) string
+}
+
+var nestKinds = []nestKind{
+	{"selection-sets", func(d int) string { return strings.Repeat("x{", d) + "x" + strings.Repeat("}", d) }},
+	{"inline-fragments", func(d int) string { return strings.Repeat("...{", d) + "x" + strings.Repeat("}", d) }},
+	{"list-values", func(d int) string { return "f(l:" + strings.Repeat("[", d) + strings.Repeat("]", d) + ")" }},
+	{"object-values", func(d int) string { return "f(in:" + strings.Repeat("{a:", d) + "1" + strings.Repeat("}", d) + ")" }},
+	{"mixed-values", func(d int) string { return "x @d(a:" + strings.Repeat("[{a:", d) + "1" + strings.Repeat("}]", d) + ")" }},
+	{"spread-chain", func(d int) string { return strings.Repeat("...{x{", d/2+1) + "x" + strings.Repeat("}}", d/2+1) }},
+}
+
+func mixedSource(c Case) (string, bool) {
+	// Family = "<sibling kind>/<nest kind>", N = siblings, From = nesting depth
+	parts := strings.SplitN(c.Family, "/", 2)
+	if len(parts) != 2 {
+		return "", false
+	}
+	for _, s := range sibKinds {
+		if s.name != parts[0] {
+			continue
+		}
+		for _, k := range nestKinds {
+			if k.name == parts[1] {
+				return s.doc(c.N, k.sel(c.From)), true
+			}
+		}
+	}
+	return "", false
+}
